@@ -33,10 +33,25 @@ class Builder(object):
         self.tensors = {}
         self.nl = 0
         self.rng = rng
+        # how distinct tensor ids are realised: separate storages | distinct tensor OBJECTS that are views of one storage
+        # starting at the same address (w, w.detach(), w.view(...): identity, not storage, is what makes a tensor unique)
+        self.mode = rng.choice(["separate", "separate", "shared", "shared+empty"])
+        self.base = torch.randn(8, dtype=torch.float64)
 
     def tensor(self, a):
         if a not in self.tensors:
-            self.tensors[a] = torch.randn(alias_shape(a), dtype=torch.float64)
+            shape = alias_shape(a)
+            if self.mode == "shared+empty" and a % 3 == 0:
+                shape = (0,) if a % 2 else (0, 2)
+            n_ = 1
+            for s_ in shape:
+                n_ *= s_
+            if self.mode == "separate":
+                self.tensors[a] = torch.randn(shape, dtype=torch.float64)
+            elif n_ == 0:
+                self.tensors[a] = torch.zeros(shape, dtype=torch.float64)
+            else:
+                self.tensors[a] = self.base[:n_].view(shape)
         return self.tensors[a]
 
     def build(self, t):
@@ -250,6 +265,12 @@ def _index_by_identity(sup, x):
 
 
 def _index_by_value(offs, listing, x):
+    if x.numel() == 0:
+        # an empty tensor carries no values: identified by its shape among the empty entries of the listing
+        for i, l in enumerate(listing):
+            if l.numel() == 0 and tuple(x.shape) == tuple(l.shape):
+                return i + 1
+        return 0
     v = float(x.reshape(-1)[0]) - 1000.0
     for i, (o, l) in enumerate(zip(offs, listing)):
         if v == o and tuple(x.shape) == tuple(l.shape) and torch.equal(
